@@ -666,6 +666,16 @@ class _Log:
                 ev.append((p[0], int(p[1]), int(p[2]), float(p[3]), float(p[4])))
         return ev
 
+    def dispatched(self):
+        """hand-over file names in the order the tasks were started"""
+        nm = []
+        with open(self.path) as f:
+            for line in f:
+                p = line.split()
+                if p[0] == 'S' and len(p) > 4:
+                    nm.append((int(p[1]), p[4]))
+        return [n for _, n in sorted(nm)]
+
     def solves(self):
         """(dispatch count, kind, tol as hex) of every solve the wrapper saw."""
         sv = []
@@ -997,7 +1007,8 @@ def _delayed_solve(inp):
         from emg3d import io as _io
         d_in = _io.load(inp, verb=0)['data'] if isinstance(inp, str) else inp
         kind = 'forward' if 'source' in d_in else 'sfield'
-        _log(f"S {i} {kind} {float(d_in['solver_opts']['tol']).hex()}")
+        nm = os.path.basename(inp) if isinstance(inp, str) else '-'
+        _log(f"S {i} {kind} {float(d_in['solver_opts']['tol']).hex()} {nm}")
     except Exception as e:      # noqa
         _log(f"S {i} unreadable {type(e).__name__}")
     out = st['orig'](inp)
@@ -1033,6 +1044,8 @@ class _PatchedSolve:
 # receivers, one receiver, more sources than frequencies, one frequency, one source, ...
 # (a hand-over name that mixes up the three survey dimensions collides on some of them)
 DIMS_BLOCK = [(2, 1, 3), (3, 1, 2), (2, 2, 4), (4, 3, 2), (3, 2, 1), (1, 1, 3), (2, 3, 3)]
+# more than ten frequencies / sources: two-digit positions (names sort differently from slots)
+DIMS_BIG = [(1, 1, 11), (11, 1, 1)]
 
 
 def gen_survey_spec(rng, big=False, adversarial_keys=False, dims=None):
@@ -1053,7 +1066,8 @@ def gen_survey_spec(rng, big=False, adversarial_keys=False, dims=None):
         rec=[[rng.randint(-10, 10) * 12.5, rng.randint(-10, 10) * 12.5,
               rng.randint(-6, 6) * 12.5, rng.randint(0, 35) * 10.0, 0.0] for _ in range(nrec)],
         rec_magnetic=[rng.random() < 0.3 for _ in range(nrec)],
-        freqs=sorted(rng.sample([0.25, 0.5, 1.0, 2.0, 4.0, 8.0], nfreq)),
+        freqs=sorted(rng.sample([0.25, 0.5, 1.0, 2.0, 4.0, 8.0] if nfreq <= 6 else
+                            [round(0.125 * 1.5 ** k, 6) for k in range(14)], nfreq)),
         obs_scale=1.0 + rng.randint(1, 8) / 16.0,
         vec_seed=rng.randint(0, 2**31 - 1),
         dims=[nsrc, nrec, nfreq],
@@ -1285,6 +1299,56 @@ def compare_digests(ref, digs):
     return bad
 
 
+def model_dispatch_names(skeys, fkeys):
+    """Hand-over file names of a full forward compute in DISPATCH order according to the
+    model: task i of the dispatched list is slot i of sources x frequencies, named by the
+    pattern extracted from the current source (Gen/MpShape.v)."""
+    import re
+    ls = lambda xs: '[' + '; '.join('"%s"' % x for x in xs) + ']'
+    txt = ("From Coq Require Import List String.\nFrom V Require Import Model.Sched Proofs.Sched "
+           "Gen.MpShape Proofs.SchedTie.\nImport ListNotations.\nLocal Open Scope string_scope.\n"
+           "Set Printing Width 1000000.\nSet Printing Depth 1000000.\n"
+           f"Eval vm_compute in map (fname \"efield\" {ls(skeys)} {ls(fkeys)}) "
+           f"(srcfreq {ls(skeys)} {ls(fkeys)}).\n")
+    rc, out = V.coq_eval('c11_names', txt)
+    if rc != 0:
+        raise RuntimeError('file-name model does not evaluate: ' + out[-600:])
+    return re.findall(r'"([^"]*)"', V.eval_answers(out)[0])
+
+
+def dispatch_order_problems(spec, ref=None):
+    """file_dir, one worker: the i-th task that is started must be the task of slot i;
+    with `ref` (forward digests of the in-memory run) every slot is compared as well."""
+    fd = tempfile.mkdtemp(prefix='c11_do_')
+    try:
+        pre = []
+        with _Log() as lg, _TqdmMasked(False), _PatchedSolve([]):
+            sim = build_sim(spec, 1, fd)
+            digs = observe(sim, 'forward', None)
+            got = lg.dispatched()
+            skeys, fkeys = list(sim.survey.sources.keys()), list(sim.survey.frequencies.keys())
+        if ref is not None:
+            bad = compare_digests(ref, digs)
+            if bad:
+                pre.append('digests differ from the in-memory run: ' + ', '.join(bad[:6]))
+        try:
+            want = model_dispatch_names(skeys, fkeys)
+        except Exception as e:      # noqa  (model not built: the proof obligation reports it)
+            return pre
+        if got != want:
+            i = next((k for k in range(min(len(got), len(want))) if got[k] != want[k]),
+                     min(len(got), len(want)))
+            return pre + [f"dispatch order: task {i} of the dispatched list is "
+                    f"{got[i] if i < len(got) else 'missing'}, slot {i} is "
+                    f"{want[i] if i < len(want) else '-'} "
+                    f"(dispatched: {got[:4]} ... {got[-2:]})"]
+        return pre
+    except Exception as e:      # noqa
+        return ['dispatch-order run raised ' + type(e).__name__ + ': ' + str(e)[:200]]
+    finally:
+        shutil.rmtree(fd, ignore_errors=True)
+
+
 def dims_block_hits(rng, block, hist=None, stop_at_first=False):
     """For every (nsrc, nrec, nfreq) of the block: file_dir mode (sequential, so no
     forking) against the in-memory reference (forward + gradient digests) and the
@@ -1295,15 +1359,24 @@ def dims_block_hits(rng, block, hist=None, stop_at_first=False):
         spec['shape'] = [4, 4, 4]
         spec['h'] = [h[:4] if len(h) >= 4 else (h + [200.0] * 4)[:4] for h in spec['h']]
         spec['prop'] = (spec['prop'] * 2)[:64]
-        sim = build_sim(spec, 1, None)
-        sim.compute()
-        obs = sim.data.synthetic.data.copy() * spec['obs_scale']
-        ref = observe(build_sim(spec, 1, None), 'gradient', obs)
         cfg = dict(max_workers=1, file_dir=True, what='gradient', pattern='none', delays=[],
                    tqdm_masked=False, recompute=False)
-        digs, comp = run_sim_config(spec, cfg, obs)
-        bad = compare_digests(ref, digs)
-        own = own_task_oracle(spec, obs, file_dir=True)
+        if max(dims) > 10:
+            # many tasks: forward run only, loose tolerance; the dispatch-order tie (task i of
+            # the dispatched list is slot i, names from the Coq model) replaces own-task solves
+            spec['tols'] = [1e-4, 1e-4]
+            cfg['what'] = 'forward'
+            ref = observe(build_sim(spec, 1, None), 'forward', None)
+            bad, comp = [], []
+            own = dispatch_order_problems(spec, ref)
+        else:
+            sim = build_sim(spec, 1, None)
+            sim.compute()
+            obs = sim.data.synthetic.data.copy() * spec['obs_scale']
+            ref = observe(build_sim(spec, 1, None), 'gradient', obs)
+            digs, comp = run_sim_config(spec, cfg, obs)
+            bad = compare_digests(ref, digs)
+            own = own_task_oracle(spec, obs, file_dir=True)
         if hist is not None:
             k = 'sim:dims_block/file'
             hist[k] = hist.get(k, 0) + 1
@@ -1623,15 +1696,15 @@ def correspondence_sim(ctx, dis, hist):
                 samples.append(brief)
     # deterministic block of survey dimensions (nsrc, nrec, nfreq), file_dir mode
     nblock = len(DIMS_BLOCK) if ctx.thorough else 4
-    for h in dims_block_hits(ctx.rng, DIMS_BLOCK[:nblock], hist):
+    for h in dims_block_hits(ctx.rng, DIMS_BLOCK[:nblock] + DIMS_BIG, hist):
         dis.append({'what': 'file_dir run differs from the in-memory run / a slot does not hold '
                             'the result of its own task, for survey dimensions '
                             f"(nsrc, nrec, nfreq) = {tuple(h['spec']['dims'])}",
                     'signature': h['signature'],
                     'case': {'dims': h['spec']['dims'], 'config': h['config']},
                     'impl': h['observed'], 'model': h['required'], 'spec_full': h['spec']})
-    runs += 2 * nblock
-    distinct.update(('dims', d) for d in DIMS_BLOCK[:nblock])
+    runs += 2 * (nblock + len(DIMS_BIG))
+    distinct.update(('dims', d) for d in DIMS_BLOCK[:nblock] + DIMS_BIG)
     # computational grids of different sizes (later frequency on the larger grid)
     for h in sized_grids_hits(ctx.rng, (2, 3) if ctx.thorough else (2,), hist):
         dis.append({'what': 'parallel in-memory run with source/frequency dependent grids '
@@ -1788,7 +1861,7 @@ def search(ctx, broken):
         hits += sized_grids_hits(rng, (2, 3, 4))
     # 2b. deterministic first block of survey dimensions in file_dir mode
     if not hits:
-        hits += dims_block_hits(rng, DIMS_BLOCK, stop_at_first=True)
+        hits += dims_block_hits(rng, DIMS_BIG + DIMS_BLOCK, stop_at_first=True)
     # 3. one survey, the sharpest configurations
     if not hits:
         spec = gen_survey_spec(rng)
